@@ -178,13 +178,31 @@ def run(F, rep):
         n_e += 1
         while v.get('k') in ('Construct', 'Cast', 'Paren') and len(v.get('c', [])) == 1:
             v = v['c'][0]
-        okk = None
-        if v.get('k') == 'Str':
-            okk = 'literal'
-        elif v.get('k') == 'Call' and v.get('fn') in ('convertToString', 'makeUniqueId'):
-            okk = v['fn']
-        elif v.get('k') == 'Call' and any(ck in {g.key for g in esc} for ck in F.callee_keys(v)):
-            okk = 'escaped by ' + v.get('fn', '')
+        def safe(fn_, x, use, depth=0):
+            while x.get('k') in ('Construct', 'Cast', 'Paren') and len(x.get('c', [])) == 1:
+                x = x['c'][0]
+            if x.get('k') == 'Str':
+                return 'literal'
+            if x.get('k') == 'Call' and x.get('fn') in ('convertToString', 'makeUniqueId'):
+                return x['fn']
+            if x.get('k') == 'Call' and any(ck in {g.key for g in esc} for ck in F.callee_keys(x)):
+                return 'escaped by ' + x.get('fn', '')
+            if x.get('k') == 'Ref' and x.get('dk') == 'local' and depth < 3:
+                # a local that only ever holds safe values (definitions that reach the use)
+                cfg_ = fn_.cfg()
+                defs = []
+                for n_ in fn_.walk():
+                    cc = n_.get('c', [])
+                    if n_.get('k') == 'Var' and n_.get('d') == x['d'] and cc:
+                        defs.append((n_, cc[0]))
+                    elif n_.get('k') == 'Call' and n_.get('opc') == '=' and cc and cc[0].get('k') == 'Ref' and cc[0].get('d') == x['d']:
+                        defs.append((n_, cc[1]))
+                alive = [(a, r) for a, r in defs if not any(b is not a and cfg_.node_dominates(b, use) and cfg_.node_dominates(a, b) for b, _ in defs)]
+                hows = [safe(fn_, r, a, depth + 1) for a, r in alive]
+                if alive and all(hows):
+                    return 'local holding ' + ', '.join(sorted(set(hows)))
+            return None
+        okk = safe(p['func'], v, p['lit'])
         rep.check(okk is not None, 'C02.E1', '%s|%s@%s|%s' % (p['func'].name, p['attr'], p['element'], render(v)[:40]), p['func'].where(p['lit']),
                   '%s: `%s` is spliced into %s="..." of <%s> unescaped: a value containing & < or " makes the document ill-formed and printModel returns an empty string' % (p['func'].short, render(v)[:50], p['attr'], p['element']), okk)
     if n_e < 45:
